@@ -14,11 +14,17 @@ PROVED (for every diagram / syntax tree):
    `expect("cannot find position")` cannot fire, for every syntax tree, incl. repeated
    sub-terms.
 
-FULL STATEMENTS (not proved): `dot_denotes` (the read-back decision graph evaluates to
-`eval`), `dot_filter` (True/False export = full graph minus the opposite leaf and the edges
-into it), `tree_roundtrip` (the read-back term is the syntax tree).  All three are decided
-on every generated case by the correspondence run's oracle (read-back evaluation on every
-assignment; set comparison of the three exports; term reconstruction).
+ * `dot_denotes`: the exported graph of a handle of a reachable environment, read back as a
+   decision graph (`gEval`: look the node's label up by id, follow the T or F edge by id), evaluates
+   to the function of the diagram, for every assignment.  This uses that distinct structures live at
+   distinct addresses (`Env.Inv.addrInj`, maintained by every operation) — node ids are addresses;
+ * `nodes_filter` / `edges_filter` (`dot_filter`): with a True or False filter the declared node
+   structures are those of the full export minus the opposite leaf, and the edges are those of the
+   full export minus the edges into it — for every diagram.
+
+FULL STATEMENT (not proved): `tree_roundtrip` (the parse-tree DOT read back as a term with shared
+identical sub-terms is the syntax tree) — decided on every generated case by the correspondence
+run's oracle (term reconstruction from labels and edges).
 -/
 import Rsbdd.Proofs.Dot
 import Rsbdd.Thm.C13
@@ -46,5 +52,350 @@ theorem tree_ids_total (f : Formula) : (parseTree f).isSome = true := parseTree_
 -- non-vacuity: a syntax tree with a repeated sub-term is exported with the sub-term once
 example : ((parseTree (.bin .and (.var 0) (.bin .or (.var 0) (.var 1)))).map (fun g => g.nodes.length)) = some 4 := by
   rfl
+
+
+open Env BDD
+
+/-! ### reading the exported graph back as a decision graph -/
+
+/-- the target of the edge leaving `id` with the given label -/
+def gStep (G : BddGraph) (id : NodeId) (flag : Bool) : Option NodeId :=
+  (G.edges.find? (fun e => decide (e.1 = id) && (e.2.1 == flag))).map (·.2.2)
+
+def gLabel (G : BddGraph) (id : NodeId) : Option NodeLabel :=
+  (G.nodes.find? (fun n => decide (n.1 = id))).map (·.2)
+
+/-- follow the T / F edges from `id` under `σ` down to a leaf -/
+def gEval (G : BddGraph) : Nat → NodeId → Asg → Option Bool
+  | 0, _, _ => none
+  | fuel + 1, id, σ =>
+    match gLabel G id with
+    | some .true_ => some true
+    | some .false_ => some false
+    | some (.var v) =>
+      match gStep G id (σ v) with
+      | some id' => gEval G fuel id' σ
+      | none => none
+    | none => none
+
+theorem nodes_sub : ∀ (r m : PBDD), m ∈ bddNodes .any r → m ∈ subtrees r
+  | .F p, m, h => by simpa [bddNodes, leafPasses, subtrees] using h
+  | .T p, m, h => by simpa [bddNodes, leafPasses, subtrees] using h
+  | .node p l v f, m, h => by
+    simp only [bddNodes] at h
+    have hm := mem_of_mem_uniqueBy h
+    simp only [List.mem_append, List.mem_cons, List.mem_nil_iff, or_false] at hm
+    rcases hm with (hm | rfl) | hm
+    · simp [subtrees, nodes_sub l m hm]
+    · simp [subtrees]
+    · simp [subtrees, nodes_sub f m hm]
+
+theorem declared_of_sub : ∀ (r n : PBDD), n ∈ subtrees r → Declared (bddNodes .any r) n
+  | .F p, n, h => by simp [subtrees] at h; subst h; exact declared_root _
+  | .T p, n, h => by simp [subtrees] at h; subst h; exact declared_root _
+  | .node p l v f, n, h => by
+    simp only [subtrees, List.mem_cons, List.mem_append] at h
+    rcases h with rfl | h | h
+    · exact declared_root _
+    · exact declared_of_left (declared_of_sub l n h)
+    · exact declared_of_right (declared_of_sub f n h)
+
+/-- every exported edge is a T or F edge of a sub-diagram -/
+theorem edges_shape : ∀ (r : PBDD) (e : Edge), e ∈ bddEdges .any r →
+    ∃ p l v f, e.1 = .node p l v f ∧ e.1 ∈ subtrees r ∧
+      ((e.2.1 = true ∧ e.2.2 = l) ∨ (e.2.1 = false ∧ e.2.2 = f))
+  | .F p, e, h => by simp [bddEdges] at h
+  | .T p, e, h => by simp [bddEdges] at h
+  | .node p l v f, e, h => by
+    simp only [bddEdges] at h
+    have hm := mem_of_mem_uniqueBy h
+    simp only [edgeKept, if_true, List.mem_append, List.mem_cons, List.mem_nil_iff, or_false] at hm
+    rcases hm with (hm | hm) | (rfl | rfl)
+    · obtain ⟨p', l', v', f', h1, h2, h3⟩ := edges_shape l e hm
+      exact ⟨p', l', v', f', h1, by simp [subtrees, h2], h3⟩
+    · obtain ⟨p', l', v', f', h1, h2, h3⟩ := edges_shape f e hm
+      exact ⟨p', l', v', f', h1, by simp [subtrees, h2], h3⟩
+    · exact ⟨p, l, v, f, rfl, by simp [subtrees], Or.inl ⟨rfl, rfl⟩⟩
+    · exact ⟨p, l, v, f, rfl, by simp [subtrees], Or.inr ⟨rfl, rfl⟩⟩
+
+/-- both edges of every sub-diagram are exported (up to structure) -/
+theorem edges_complete : ∀ (r : PBDD) (p : Nat) (l : PBDD) (v : Nat) (f : PBDD), .node p l v f ∈ subtrees r →
+    (∃ e ∈ bddEdges .any r, e.1.erase = (PBDD.node p l v f).erase ∧ e.2.1 = true ∧ e.2.2.erase = l.erase) ∧
+    (∃ e ∈ bddEdges .any r, e.1.erase = (PBDD.node p l v f).erase ∧ e.2.1 = false ∧ e.2.2.erase = f.erase)
+  | .F q, p, l, v, f, h => by simp [subtrees] at h
+  | .T q, p, l, v, f, h => by simp [subtrees] at h
+  | .node q a w b, p, l, v, f, h => by
+    simp only [subtrees, List.mem_cons, List.mem_append] at h
+    have lift : ∀ (e : Edge), e ∈ bddEdges .any a ++ bddEdges .any b ++
+        ((if edgeKept .any a then [(PBDD.node q a w b, true, a)] else []) ++
+         (if edgeKept .any b then [(PBDD.node q a w b, false, b)] else [])) →
+        ∃ e' ∈ bddEdges .any (.node q a w b), (e'.1.erase, e'.2.1, e'.2.2.erase) = (e.1.erase, e.2.1, e.2.2.erase) := by
+      intro e he
+      simp only [bddEdges]
+      exact exists_mem_uniqueBy (key := fun (e : Edge) => (e.1.erase, e.2.1, e.2.2.erase)) he
+    have conv : ∀ (flag : Bool) (c : PBDD), (∃ e ∈ bddEdges .any a ++ bddEdges .any b ++
+        ((if edgeKept .any a then [(PBDD.node q a w b, true, a)] else []) ++
+         (if edgeKept .any b then [(PBDD.node q a w b, false, b)] else [])),
+          e.1.erase = (PBDD.node p l v f).erase ∧ e.2.1 = flag ∧ e.2.2.erase = c.erase) →
+        ∃ e ∈ bddEdges .any (.node q a w b), e.1.erase = (PBDD.node p l v f).erase ∧ e.2.1 = flag ∧ e.2.2.erase = c.erase := by
+      rintro flag c ⟨e, he, h1, h2, h3⟩
+      obtain ⟨e', he', hk⟩ := lift e he
+      simp only [Prod.mk.injEq] at hk
+      exact ⟨e', he', hk.1.trans h1, hk.2.1.trans h2, hk.2.2.trans h3⟩
+    rcases h with h | h | h
+    · cases h
+      constructor
+      · exact conv true a ⟨(.node q a w b, true, a), by simp [edgeKept], rfl, rfl, rfl⟩
+      · exact conv false b ⟨(.node q a w b, false, b), by simp [edgeKept], rfl, rfl, rfl⟩
+    · obtain ⟨⟨e1, he1, x1⟩, ⟨e2, he2, x2⟩⟩ := edges_complete a p l v f h
+      exact ⟨conv true l ⟨e1, by simp [he1], x1⟩, conv false f ⟨e2, by simp [he2], x2⟩⟩
+    · obtain ⟨⟨e1, he1, x1⟩, ⟨e2, he2, x2⟩⟩ := edges_complete b p l v f h
+      exact ⟨conv true l ⟨e1, by simp [he1], x1⟩, conv false f ⟨e2, by simp [he2], x2⟩⟩
+
+theorem subtrees_trans : ∀ (r n m : PBDD), n ∈ subtrees r → m ∈ subtrees n → m ∈ subtrees r
+  | .F p, n, m, h1, h2 => by simp [subtrees] at h1; subst h1; exact h2
+  | .T p, n, m, h1, h2 => by simp [subtrees] at h1; subst h1; exact h2
+  | .node p l v f, n, m, h1, h2 => by
+    simp only [subtrees, List.mem_cons, List.mem_append] at h1
+    rcases h1 with rfl | h1 | h1
+    · exact h2
+    · simp [subtrees, subtrees_trans l n m h1 h2]
+    · simp [subtrees, subtrees_trans f n m h1 h2]
+
+/-- in a reachable environment, two decision nodes of a handle with the same address are the same node -/
+theorem same_addr {env : Env} (hi : Inv env) {r : PBDD} (hr : Good env.table r) {n m : PBDD}
+    (hn : n ∈ subtrees r) (hm : m ∈ subtrees r) (h : n.addr = m.addr) : n = m := by
+  have e1 := hr n hn
+  have e2 := hr m hm
+  have := hi.addrInj _ _ _ _ e1 e2 h
+  exact C13.shared_once hr hr hn hm this
+
+
+theorem nodeLabel_of_nodeId {env : Env} (hi : Inv env) {r : PBDD} (hr : Good env.table r) {n m : PBDD}
+    (hn : n ∈ subtrees r) (hm : m ∈ subtrees r) (h : nodeId m = nodeId n) : nodeLabel m = nodeLabel n := by
+  cases n with
+  | T p => cases m <;> simp [nodeId] at h; rfl
+  | F p => cases m <;> simp [nodeId] at h; rfl
+  | node p l v f =>
+    cases m with
+    | T q => simp [nodeId] at h
+    | F q => simp [nodeId] at h
+    | node q a w b =>
+      simp only [nodeId, NodeId.at.injEq] at h
+      have := same_addr hi hr hm hn (by simp [PBDD.addr, h])
+      rw [this]
+
+theorem gLabel_spec {env : Env} (hi : Inv env) {r : PBDD} (hr : Good env.table r) {n : PBDD}
+    (hn : n ∈ subtrees r) : gLabel (bddGraph r .any) (nodeId n) = some (nodeLabel n) := by
+  unfold gLabel bddGraph
+  simp only
+  obtain ⟨m, hm, he⟩ := declared_of_sub r n hn
+  have hmn : m = n := C13.shared_once hr hr (nodes_sub r m hm) hn he
+  subst hmn
+  cases hf : ((bddNodes .any r).map (fun n => (nodeId n, nodeLabel n))).find? (fun x => decide (x.1 = nodeId m)) with
+  | none =>
+    have := List.find?_eq_none.mp hf (nodeId m, nodeLabel m) (List.mem_map.mpr ⟨m, hm, rfl⟩)
+    simp at this
+  | some x =>
+    have hx := List.find?_some hf
+    have hmem := List.mem_of_find?_eq_some hf
+    obtain ⟨m', hm', rfl⟩ := List.mem_map.mp hmem
+    simp only [decide_eq_true_eq] at hx
+    simp only [Option.map_some]
+    rw [nodeLabel_of_nodeId hi hr hn (nodes_sub r m' hm') hx]
+
+theorem gStep_spec {env : Env} (hi : Inv env) {r : PBDD} (hr : Good env.table r) {p v : Nat} {l f : PBDD}
+    (hn : PBDD.node p l v f ∈ subtrees r) (flag : Bool) :
+    gStep (bddGraph r .any) (nodeId (.node p l v f)) flag = some (nodeId (if flag then l else f)) := by
+  unfold gStep bddGraph
+  simp only
+  -- some exported edge does the job
+  have hex : ∃ e ∈ bddEdges .any r, e.1 = PBDD.node p l v f ∧ e.2.1 = flag := by
+    obtain ⟨⟨e1, he1, a1, b1, _⟩, ⟨e2, he2, a2, b2, _⟩⟩ := edges_complete r p l v f hn
+    cases flag with
+    | true =>
+      obtain ⟨_, _, _, _, _, hs, _⟩ := edges_shape r e1 he1
+      exact ⟨e1, he1, C13.shared_once hr hr hs hn a1, b1⟩
+    | false =>
+      obtain ⟨_, _, _, _, _, hs, _⟩ := edges_shape r e2 he2
+      exact ⟨e2, he2, C13.shared_once hr hr hs hn a2, b2⟩
+  cases hf : ((bddEdges .any r).map (fun e => (nodeId e.1, e.2.1, nodeId e.2.2))).find?
+      (fun e => decide (e.1 = nodeId (PBDD.node p l v f)) && (e.2.1 == flag)) with
+  | none =>
+    obtain ⟨e, he, h1, h2⟩ := hex
+    have := List.find?_eq_none.mp hf (nodeId e.1, e.2.1, nodeId e.2.2) (List.mem_map.mpr ⟨e, he, rfl⟩)
+    simp [h1, h2] at this
+  | some x =>
+    have hx := List.find?_some hf
+    have hmem := List.mem_of_find?_eq_some hf
+    obtain ⟨e, he, rfl⟩ := List.mem_map.mp hmem
+    simp only [Bool.and_eq_true, decide_eq_true_eq, beq_iff_eq] at hx
+    obtain ⟨q, a, w, b, h1, hs, h3⟩ := edges_shape r e he
+    have hsame : e.1 = PBDD.node p l v f := by
+      apply same_addr hi hr hs hn
+      have := hx.1
+      rw [h1] at this ⊢
+      simpa [nodeId, PBDD.addr] using this
+    rw [h1] at hsame
+    cases hsame
+    simp only [Option.map_some]
+    rcases h3 with ⟨hf1, hf2⟩ | ⟨hf1, hf2⟩
+    · rw [← hx.2, hf1, hf2]; rfl
+    · rw [← hx.2, hf1, hf2]; rfl
+
+/-- C14, first sentence: the exported graph, read back as a decision graph, evaluates to the function of
+the diagram — for every handle of a reachable environment, every sub-diagram and every assignment -/
+theorem dot_denotes_sub {env : Env} (hi : Inv env) {r : PBDD} (hr : Good env.table r) (σ : Asg) :
+    ∀ (n : PBDD), n ∈ subtrees r → ∀ fuel, n.size ≤ fuel →
+      gEval (bddGraph r .any) fuel (nodeId n) σ = some (eval n.erase σ)
+  | .T p, hn, fuel, hfu => by
+    obtain ⟨k, rfl⟩ : ∃ k, fuel = k + 1 := ⟨fuel - 1, by simp [PBDD.size] at hfu; omega⟩
+    simp [gEval, gLabel_spec hi hr hn, nodeLabel, PBDD.erase, eval]
+  | .F p, hn, fuel, hfu => by
+    obtain ⟨k, rfl⟩ : ∃ k, fuel = k + 1 := ⟨fuel - 1, by simp [PBDD.size] at hfu; omega⟩
+    simp [gEval, gLabel_spec hi hr hn, nodeLabel, PBDD.erase, eval]
+  | .node p l v f, hn, fuel, hfu => by
+    simp only [PBDD.size] at hfu
+    obtain ⟨k, rfl⟩ : ∃ k, fuel = k + 1 := ⟨fuel - 1, by omega⟩
+    have hl : l ∈ subtrees r := subtrees_trans r _ l hn (by simp [subtrees, self_mem_subtrees])
+    have hf : f ∈ subtrees r := subtrees_trans r _ f hn (by simp [subtrees, self_mem_subtrees])
+    simp only [gEval, gLabel_spec hi hr hn, nodeLabel, gStep_spec hi hr hn, PBDD.erase, eval]
+    cases hσ : σ v with
+    | true => simpa using dot_denotes_sub hi hr σ l hl k (by omega)
+    | false => simpa using dot_denotes_sub hi hr σ f hf k (by omega)
+
+theorem dot_denotes {env : Env} (hi : Inv env) {r : PBDD} (hr : Good env.table r) (σ : Asg) :
+    gEval (bddGraph r .any) r.size (nodeId r) σ = some (eval r.erase σ) :=
+  dot_denotes_sub hi hr σ r (self_mem_subtrees r) r.size (Nat.le_refl _)
+
+
+/-! ### filtered exports -/
+
+/-- the structure of the leaf a filter omits -/
+def omitted : BDD.Filter → Option BDD
+  | .any => none
+  | .true_ => some .F
+  | .false_ => some .T
+
+theorem leafPasses_T (flt : BDD.Filter) : leafPasses flt true = true ↔ omitted flt ≠ some BDD.T := by
+  cases flt <;> simp [leafPasses, omitted]
+theorem leafPasses_F (flt : BDD.Filter) : leafPasses flt false = true ↔ omitted flt ≠ some BDD.F := by
+  cases flt <;> simp [leafPasses, omitted]
+
+/-- the declared node structures of a filtered export are those of the full export minus the omitted leaf -/
+theorem nodes_filter (flt : BDD.Filter) : ∀ (r : PBDD) (k : BDD),
+    (∃ m ∈ bddNodes flt r, m.erase = k) ↔ ((∃ m ∈ bddNodes .any r, m.erase = k) ∧ omitted flt ≠ some k)
+  | .T p, k => by
+    cases flt <;> simp [bddNodes, leafPasses, omitted, PBDD.erase]
+    all_goals (try (intro h; subst h; simp))
+  | .F p, k => by
+    cases flt <;> simp [bddNodes, leafPasses, omitted, PBDD.erase]
+    all_goals (try (intro h; subst h; simp))
+  | .node p l v f, k => by
+    have ihl := nodes_filter flt l k
+    have ihf := nodes_filter flt f k
+    have key : ∀ (g : BDD.Filter), (∃ m ∈ bddNodes g (.node p l v f), m.erase = k) ↔
+        ((∃ m ∈ bddNodes g l, m.erase = k) ∨ (PBDD.node p l v f).erase = k ∨ (∃ m ∈ bddNodes g f, m.erase = k)) := by
+      intro g
+      simp only [bddNodes]
+      constructor
+      · rintro ⟨m, hm, he⟩
+        have := mem_of_mem_uniqueBy hm
+        simp only [List.mem_append, List.mem_cons, List.mem_nil_iff, or_false] at this
+        rcases this with (h | rfl) | h
+        · exact Or.inl ⟨m, h, he⟩
+        · exact Or.inr (Or.inl he)
+        · exact Or.inr (Or.inr ⟨m, h, he⟩)
+      · intro h
+        have lift : ∀ x, x ∈ bddNodes g l ++ [PBDD.node p l v f] ++ bddNodes g f → x.erase = k →
+            ∃ m ∈ uniqueBy PBDD.erase (bddNodes g l ++ [PBDD.node p l v f] ++ bddNodes g f), m.erase = k := by
+          intro x hx he
+          obtain ⟨y, hy, hk⟩ := exists_mem_uniqueBy (key := PBDD.erase) hx
+          exact ⟨y, hy, hk.trans he⟩
+        rcases h with ⟨m, hm, he⟩ | he | ⟨m, hm, he⟩
+        · exact lift m (by simp [hm]) he
+        · exact lift _ (by simp) he
+        · exact lift m (by simp [hm]) he
+    rw [key flt, key .any, ihl, ihf]
+    constructor
+    · rintro (⟨h, ho⟩ | h | ⟨h, ho⟩)
+      · exact ⟨Or.inl h, ho⟩
+      · refine ⟨Or.inr (Or.inl h), ?_⟩
+        rw [← h]; cases flt <;> simp [omitted, PBDD.erase]
+      · exact ⟨Or.inr (Or.inr h), ho⟩
+    · rintro ⟨h | h | h, ho⟩
+      · exact Or.inl ⟨h, ho⟩
+      · exact Or.inr (Or.inl h)
+      · exact Or.inr (Or.inr ⟨h, ho⟩)
+
+
+theorem edgeKept_iff (flt : BDD.Filter) (c : PBDD) : edgeKept flt c = true ↔ omitted flt ≠ some c.erase := by
+  cases flt <;> cases c <;> simp [edgeKept, omitted, PBDD.erase]
+
+/-- structural key of an edge -/
+def ekey (e : Edge) : BDD × Bool × BDD := (e.1.erase, e.2.1, e.2.2.erase)
+
+/-- the edges of a filtered export are those of the full export minus the edges into the omitted leaf -/
+theorem edges_filter (flt : BDD.Filter) : ∀ (r : PBDD) (t : BDD × Bool × BDD),
+    (∃ e ∈ bddEdges flt r, ekey e = t) ↔ ((∃ e ∈ bddEdges .any r, ekey e = t) ∧ omitted flt ≠ some t.2.2)
+  | .T p, t => by simp [bddEdges]
+  | .F p, t => by simp [bddEdges]
+  | .node p l v f, t => by
+    have ihl := edges_filter flt l t
+    have ihf := edges_filter flt f t
+    have key : ∀ (g : BDD.Filter), (∃ e ∈ bddEdges g (.node p l v f), ekey e = t) ↔
+        ((∃ e ∈ bddEdges g l, ekey e = t) ∨ (∃ e ∈ bddEdges g f, ekey e = t) ∨
+         (edgeKept g l = true ∧ ekey (PBDD.node p l v f, true, l) = t) ∨
+         (edgeKept g f = true ∧ ekey (PBDD.node p l v f, false, f) = t)) := by
+      intro g
+      simp only [bddEdges]
+      constructor
+      · rintro ⟨e, he, hk⟩
+        have := mem_of_mem_uniqueBy he
+        simp only [List.mem_append] at this
+        rcases this with (h | h) | (h | h)
+        · exact Or.inl ⟨e, h, hk⟩
+        · exact Or.inr (Or.inl ⟨e, h, hk⟩)
+        · by_cases c : edgeKept g l = true
+          · simp only [c, if_true, List.mem_cons, List.not_mem_nil, or_false] at h
+            subst h; exact Or.inr (Or.inr (Or.inl ⟨c, hk⟩))
+          · simp [c] at h
+        · by_cases c : edgeKept g f = true
+          · simp only [c, if_true, List.mem_cons, List.not_mem_nil, or_false] at h
+            subst h; exact Or.inr (Or.inr (Or.inr ⟨c, hk⟩))
+          · simp [c] at h
+      · intro h
+        have lift : ∀ x, x ∈ bddEdges g l ++ bddEdges g f ++
+            ((if edgeKept g l = true then [(PBDD.node p l v f, true, l)] else []) ++
+             (if edgeKept g f = true then [(PBDD.node p l v f, false, f)] else [])) → ekey x = t →
+            ∃ e ∈ uniqueBy (fun (e : Edge) => (e.1.erase, e.2.1, e.2.2.erase)) (bddEdges g l ++ bddEdges g f ++
+              ((if edgeKept g l = true then [(PBDD.node p l v f, true, l)] else []) ++
+               (if edgeKept g f = true then [(PBDD.node p l v f, false, f)] else []))), ekey e = t := by
+          intro x hx hk
+          obtain ⟨y, hy, hky⟩ := exists_mem_uniqueBy (key := fun (e : Edge) => (e.1.erase, e.2.1, e.2.2.erase)) hx
+          exact ⟨y, hy, hky.trans hk⟩
+        rcases h with ⟨e, he, hk⟩ | ⟨e, he, hk⟩ | ⟨c, hk⟩ | ⟨c, hk⟩
+        · exact lift e (by simp [he]) hk
+        · exact lift e (by simp [he]) hk
+        · exact lift _ (by simp [c]) hk
+        · exact lift _ (by simp [c]) hk
+    rw [key flt, key .any, ihl, ihf]
+    simp only [edgeKept_iff, omitted, ne_eq, not_false_eq_true, true_and, reduceCtorEq]
+    constructor
+    · rintro (⟨h, ho⟩ | ⟨h, ho⟩ | ⟨ho, h⟩ | ⟨ho, h⟩)
+      · exact ⟨Or.inl h, ho⟩
+      · exact ⟨Or.inr (Or.inl h), ho⟩
+      · refine ⟨Or.inr (Or.inr (Or.inl h)), ?_⟩
+        rw [← h]; exact ho
+      · refine ⟨Or.inr (Or.inr (Or.inr h)), ?_⟩
+        rw [← h]; exact ho
+    · rintro ⟨h | h | h | h, ho⟩
+      · exact Or.inl ⟨h, ho⟩
+      · exact Or.inr (Or.inl ⟨h, ho⟩)
+      · refine Or.inr (Or.inr (Or.inl ⟨?_, h⟩))
+        rw [← h] at ho; exact ho
+      · refine Or.inr (Or.inr (Or.inr ⟨?_, h⟩))
+        rw [← h] at ho; exact ho
+
 
 end Rsbdd.C14
